@@ -129,7 +129,7 @@ TNewSchedFail ==
      ELSE schedCalls[Ev.p] = Ev.n /\ \E i \in Insts : Create(Ev.p, i, "sched")
   /\ Consume /\ UNCHANGED aux
 
-TShoot == Have("Shoot") /\ Panics(Ev.p, Ev.n) = Ev.flag /\ InstShoot(Ev.p, Ev.n) /\ Consume /\ UNCHANGED aux
+TShoot == Have("Shoot") /\ ~PP(Ev.p).long /\ Panics(Ev.p, Ev.n) = Ev.flag /\ InstShoot(Ev.p, Ev.n) /\ Consume /\ UNCHANGED aux
 TClose == Have("Close") /\ PP(Ev.p).closable /\ InstFinish(Ev.p, Ev.n) /\ Consume /\ UNCHANGED aux
 
 \* lines that witness no step of the specification
@@ -137,6 +137,10 @@ TSkip == /\ l <= Len(Trace) /\ Ev.run = run /\ Ev.ev \in {"NewGunOk", "NewSchedO
          /\ Consume /\ UNCHANGED <<vars, aux>>
 
 (* ---- silent steps ---- *)
+\* The thousands of unlogged Acquire/Wait/Shoot rounds of a long pool's instance explain no logged line; only its two
+\* ways out do: it sees the run ctx done (class ctx), or it is in Acquire when the provider closes the queue (class ooa).
+LongSilent(p, i) == PP(p).long /\ (InstCheck(p, i) \/ (qClosed[p] /\ InstAcquire(p, i)))
+
 TSilent ==
   /\ \/ EngRecv /\ engRet'.k = "none"
      \/ EngDefer \/ UserCancelDo
@@ -144,7 +148,8 @@ TSilent ==
           \/ PoolStep(p) \/ ProvCloseQ(p)
           \/ StartFirstNone(p) \/ StartFirstGo(p) \/ StartLoop(p) \/ StartRet(p)
           \/ CheckAllNot(p) \/ CtxProp(p) \/ AwaitExit(p)
-          \/ \E i \in Insts : InstSilent(p, i) \/ (~PP(p).closable /\ InstFinish(p, i))
+          \/ \E i \in Insts : (~PP(p).long /\ InstSilent(p, i)) \/ LongSilent(p, i)
+                              \/ (~PP(p).closable /\ InstFinish(p, i))
   /\ UNCHANGED <<l, run, aux>>
 
 TNext ==
